@@ -16,7 +16,9 @@ ASSUMPTIONS = ['float32 holds the small integers of strings/phases exactly; torc
                'functions with no torch counterpart (named gates, Circuit, MeasureLayer, postselect, PauliMonomial, SBRG) are outside the property']
 
 
-def run(ctx):
+def run(ctx, only=None):
+    """only = None: the whole port-equivalence check (C13). only = set of probe names: the torch mirror of another property's check
+    (harness/tmirror.py): the same generated inputs, only the named shared functions are compared, failures are reported for ctx.prop."""
     import impl
     import torch
     import torchclifford as tc
@@ -71,7 +73,9 @@ def run(ctx):
 
     def probe(name, f_py, f_t, inp, cmp=None, when_pred=None):
         """run both; report a failure when the results differ"""
-        ctx.count('fn:' + name)
+        if only is not None and name not in only:
+            return None, None
+        ctx.count(('torch-mirror:' if only is not None else 'fn:') + name)
         try:
             a = f_py()
         except Exception as e:
@@ -87,7 +91,7 @@ def run(ctx):
             ctx.fail('torch.' + name, 'torchclifford returns %s, pyclifford returns %s' % (str(b)[:200], str(a)[:200]), dict(fn=name, input=str(inp)[:1500]), when=when or '')
         return a, b
 
-    for it in range(ctx.budget(120, 1500)):
+    for it in range(ctx.budget(120, 1500) if only is None else (40 if ctx.tier == 'quick' else 400)):
         n = rng.choice([1, 2, 2, 3, 3, 4, 5, 6])
         P, Q = G.rand_op(rng, n), G.rand_op(rng, n)
         Ps = [G.rand_op(rng, n) for _ in range(rng.randrange(1, 5))]
@@ -296,6 +300,8 @@ def run(ctx):
               lambda: t_ops(TCI.clifford_rotation_gate(tpauli(Gop)).forward(tlist(Ps, n))), (Gop, Ps))
         probe('diagonalize(Pauli)', lambda: impl.ops_of(CI.diagonalize(impl.pauli((nz, 0)), i0).forward(impl.plist([(nz, 0)]))),
               lambda: t_ops(TCI.diagonalize(tpauli((nz, 0)), i0).forward(tlist([(nz, 0)], n))), (nz, i0))
+        if only is not None:
+            continue
         # ---- correspondence of the torch results with the Lean model on a few shared kernels
         tr = TU.clifford_rotate(tg(Gop[0]), Gop[1], tgsP.clone(), tpsP.clone())
         ctx.q('T.clifford_rotate', 'rotate %s %s' % (E.epauli(O.to_g(Gop[0]), Gop[1]), H.erows_ops(Ps)),
